@@ -25,6 +25,9 @@ Not demanded (left out of the alphabet, see DESIGN.md "Not demanded"):
     (-ffree-line-length-none is passed), compiler warnings (-w), the Bash `export` attribute itself.
   * Fortran character values are compared modulo trailing blanks (character entities are blank padded and Fortran's
     own == ignores them), but the declared character length must hold every element completely ("truncated" otherwise).
+  * strings are compared as UTF-8 text (the exported text is stored as UTF-8; bytes read back from C/C++/Fortran/
+    Rust/Bash are decoded strictly enough that any wrong byte shows as a different string).  String arrays containing
+    a double quote, a backslash before a quote or a trailing backslash cannot be written in DIP (parser matters).
   * float32 targets: equality after rounding to single precision (1 ulp slack for double rounding of the literal).
 """
 import os
@@ -1176,7 +1179,9 @@ MANIFEST = dict(
     text="Translation validation of the nine configuration exporters: every parameter of the bounded space (11 data "
          "types/widths x {scalar,[3],[2,3],[2,2,2]} x value alphabets incl. width maxima, non-dyadic decimals, blanks, "
          "quotes, 30 strings made of separator/delimiter characters (', ' ; [ ] ( ) = : # ' { } $ ` \\ % & ! * | and "
-         "leading/trailing blanks; scalar and as array element of every rank), none x unit on/off x flat/nested names) is exported through every back-end and option set (rename, "
+         "leading/trailing blanks; scalar and as array element of every rank), 22 backslash/escape strings (backslash "
+         "before each character special in a back-end's quoting rules, trailing backslash, command substitution, tab), "
+         "11 non-ASCII strings (Latin-1, BMP, astral plane), none x unit on/off x flat/nested names) is exported through every back-end and option set (rename, "
          "units, define/const/constexpr, export, guard/module) and the exported text is compiled / loaded by the "
          "format's own tool (gcc, g++, gfortran, rustc, bash, json, yaml, tomllib, DIP re-parse); symbol, declared "
          "type/width/sign, shape and every element by index are compared with the environment. Uncompilable batches "
